@@ -322,7 +322,8 @@ theorem runMu_le (c : Cfg) (s s' : St) (e : Ev) (hn : e ≠ .nextCall) (h : step
 outside `gen.close()` (pc `waiting`, which waits for the generation's functions — C15 `close_returns_after_all_exits`)
 and the start of the internal functions, one of its own steps (or the coordinator's answer it waits for) is enabled -/
 theorem run_progress_when_closed (c : Cfg) (s : St) (hc : s.closedCG = true) (hx : s.pc ≠ .exited)
-    (hw : ∀ ret r, s.pc ≠ .waiting ret r) (hs : ∀ k, s.pc ≠ .starting k) (hcur : 0 < s.gens)
+    (hw : ∀ ret r, s.pc ≠ .waiting ret r) (hs : ∀ k, s.pc ≠ .starting k)
+    (hcur : (s.pc = .handing ∨ s.pc = .running ∨ ∃ r, s.pc = .closing r) → 0 < s.gens)
     (hk : ∀ k lv, s.pc = .coord k lv → k ≤ 2) :
     ∃ e, e.runLoop = true ∧ (step c s e).isSome := by
   cases hpc : s.pc with
@@ -341,9 +342,9 @@ theorem run_progress_when_closed (c : Cfg) (s : St) (hc : s.closedCG = true) (hx
   | syncing => exact ⟨.syncRes s.jm s.jg none, rfl, by simp [step, hpc]⟩
   | fetching => exact ⟨.fetchRes none, rfl, by simp [step, hpc]⟩
   | created => exact ⟨.gNew s.gens s.jg s.jm, rfl, by simp [step, hpc]⟩
-  | handing => exact ⟨.sawClose (s.gens - 1) false, rfl, by simp [step, hpc, hc, isCur]; omega⟩
-  | running => exact ⟨.sawClose (s.gens - 1) true, rfl, by simp [step, hpc, hc, isCur]; omega⟩
-  | closing ret => exact ⟨.gClose (s.gens - 1) s.cur.closed s.cur.routines, rfl, by simp [step, hpc, isCur]; omega⟩
+  | handing => have hcur := hcur (Or.inl hpc); exact ⟨.sawClose (s.gens - 1) false, rfl, by simp [step, hpc, hc, isCur]; omega⟩
+  | running => have hcur := hcur (Or.inr (Or.inl hpc)); exact ⟨.sawClose (s.gens - 1) true, rfl, by simp [step, hpc, hc, isCur]; omega⟩
+  | closing ret => have hcur := hcur (Or.inr (Or.inr ⟨ret, hpc⟩)); exact ⟨.gClose (s.gens - 1) s.cur.closed s.cur.routines, rfl, by simp [step, hpc, isCur]; omega⟩
   | retp m e => exact ⟨.nextGenRet m e, rfl, by
       simp only [step, hpc, beq_self_eq_true, if_true]
       cases e with
